@@ -251,6 +251,20 @@ def _eval_jac(case):
     after = [np.asarray(v.pose).tobytes() for v in verts]
     if before != after:
         msgs.append("numerical differentiation did not restore the vertex poses bitwise")
+    # the Jacobians handed out stay what they are while ANOTHER edge of the same type (other poses) is differentiated
+    keep = [np.array(J, dtype=float, copy=True) for J in jacs]
+    oposes = [[x + (0.45, -0.35, 0.25)[a] if a < G.DIM[k] else x for a, x in enumerate(c)] for k, c in zip(kinds, poses)]
+    overts = [I.Vertex(20 + k, I.mk_pose(kinds[k], oposes[k])) for k in range(len(kinds))]
+    other = cls([v.id for v in overts], np.eye(1), est, overts)
+    if name == "landmark":
+        other.offset = e.offset
+    with np.errstate(all="ignore"):
+        try:
+            I.BaseEdge.calc_jacobians(other)
+        except Exception:
+            pass
+    if len(keep) != len(jacs) or any(np.asarray(a).shape != b.shape or not np.array_equal(np.asarray(a, dtype=float), b, equal_nan=True) for a, b in zip(jacs, keep)):
+        msgs.append("%s over %r: the numerical Jacobians returned for one edge changed when another edge of the same type was differentiated (shared result buffer)" % (name, kinds))
     if len(jacs) != len(verts):
         msgs.append("%d Jacobians for a %d-vertex edge" % (len(jacs), len(verts)))
         return msgs, {"classes": classes, "ratio": float("inf")}
